@@ -69,45 +69,347 @@ pub fn reindex_keys(r: &mut Rng, cols: &mut [ColCfg], tier: Tier) {
 	}
 }
 
-/// Generator-side bookkeeping of trees (which roots are live, what shape they have).
+/// Generator-side bookkeeping of trees (which roots are live, what shape they have). It assumes
+/// every generated commit survives; where that is wrong (after a crash that lost a suffix) the
+/// executor drops inapplicable tree operations, so op lists stay valid.
+#[derive(Clone, Debug, Default)]
+pub struct Shape {
+	pub children: Vec<Shape>,
+}
+
 pub struct TreeGen {
+	/// per column: key index -> (shape of the root, root count)
+	live: Vec<std::collections::BTreeMap<usize, (Shape, u32)>>,
 	locked: Vec<(u8, usize)>,
 }
 
+fn gen_node_val(r: &mut Rng) -> ValSpec {
+	let len = match r.below(100) {
+		0..=9 => 0,
+		10..=69 => r.range(1, 80) as u32,
+		70..=89 => {
+			let t = r.below(255) as usize;
+			(crate::gen::SIZES[t] as i64 - 2 - r.range(0, 20) as i64).max(0) as u32
+		},
+		90..=96 => r.range(100, 5000) as u32,
+		_ => r.range(32_700, 40_000) as u32,
+	};
+	ValSpec { len, seed: r.next(), compressible: r.chance(1, 2) }
+}
+
 impl TreeGen {
-	pub fn new(_cfg: &RunCfg) -> TreeGen {
-		TreeGen { locked: Vec::new() }
+	pub fn new(cfg: &RunCfg) -> TreeGen {
+		TreeGen { live: cfg.cols.iter().map(|_| Default::default()).collect(), locked: Vec::new() }
 	}
-	pub fn gen_op(&mut self, _r: &mut Rng, _c: u8, _cc: &ColCfg, _tx: &[(u8, TxOp)]) -> Option<TxOp> {
-		None
+
+	fn random_path(r: &mut Rng, shape: &Shape) -> Option<(Vec<u8>, Shape)> {
+		if shape.children.is_empty() {
+			return None
+		}
+		let mut path = Vec::new();
+		let mut cur = shape;
+		loop {
+			let i = r.below(cur.children.len() as u64) as usize;
+			path.push(i as u8);
+			cur = &cur.children[i];
+			if cur.children.is_empty() || r.chance(1, 2) || path.len() >= 6 {
+				return Some((path, cur.clone()))
+			}
+		}
 	}
+
+	fn gen_tree(&self, r: &mut Rng, c: u8, depth: u32, exclude: &[usize], budget: &mut u32) -> (TreeSpec, Shape) {
+		let fanout = if depth >= 4 || *budget == 0 {
+			0
+		} else {
+			match r.below(20) {
+				0..=4 => 0,
+				5..=10 => r.range(1, 2),
+				11..=16 => r.range(2, 4),
+				17..=18 => r.range(5, 9),
+				_ => if depth == 0 && r.chance(1, 6) { 255 } else { r.range(1, 3) },
+			}
+		} as usize;
+		let mut children = Vec::new();
+		let mut shapes = Vec::new();
+		for _ in 0..fanout {
+			if *budget == 0 {
+				break
+			}
+			*budget -= 1;
+			let live: Vec<(&usize, &(Shape, u32))> =
+				self.live[c as usize].iter().filter(|(k, _)| !exclude.contains(k)).collect();
+			if !live.is_empty() && r.chance(1, 4) {
+				let (k, (shape, _)) = live[r.below(live.len() as u64) as usize];
+				if let Some((path, sub)) = Self::random_path(r, shape) {
+					children.push(ChildSpec::Existing { root: *k, path });
+					shapes.push(sub);
+					// the same node referenced several times
+					if r.chance(1, 5) {
+						if let Some(ChildSpec::Existing { root, path }) = children.last().cloned() {
+							children.push(ChildSpec::Existing { root, path });
+							shapes.push(shapes.last().unwrap().clone());
+						}
+					}
+					continue
+				}
+			}
+			let (t, s) = self.gen_tree(r, c, depth + 1, exclude, budget);
+			children.push(ChildSpec::New(t));
+			shapes.push(s);
+		}
+		(TreeSpec { data: gen_node_val(r), children }, Shape { children: shapes })
+	}
+
+	pub fn gen_op(&mut self, r: &mut Rng, c: u8, cc: &ColCfg, tx: &[(u8, TxOp)]) -> Option<TxOp> {
+		let ColKind::Tree { append_only, rc_roots, .. } = cc.kind else { return None };
+		// keys touched by tree ops of this transaction (incl. trees referenced by inserts)
+		let mut touched: Vec<usize> = Vec::new();
+		for (tc, op) in tx {
+			if *tc != c {
+				continue
+			}
+			match op {
+				TxOp::InsertTree(k, spec) => {
+					touched.push(*k);
+					fn refs(s: &TreeSpec, out: &mut Vec<usize>) {
+						for c in &s.children {
+							match c {
+								ChildSpec::New(n) => refs(n, out),
+								ChildSpec::Existing { root, .. } => out.push(*root),
+							}
+						}
+					}
+					refs(spec, &mut touched);
+				},
+				TxOp::RefTree(k) | TxOp::DerefTree(k) => touched.push(*k),
+				_ => {},
+			}
+		}
+		let live_keys: Vec<usize> = self.live[c as usize].keys().cloned().filter(|k| !touched.contains(k)).collect();
+		let free_keys: Vec<usize> =
+			(0..cc.keys.len()).filter(|k| !self.live[c as usize].contains_key(k) && !touched.contains(k)).collect();
+		let choice = r.below(100);
+		if (choice < 50 || live_keys.is_empty()) && !free_keys.is_empty() {
+			let k = *r.pick(&free_keys);
+			let mut budget = *r.pick(&[3u32, 8, 20, 60, 300]);
+			let (spec, shape) = self.gen_tree(r, c, 0, &touched, &mut budget);
+			self.live[c as usize].insert(k, (shape, 1));
+			return Some(TxOp::InsertTree(k, spec))
+		}
+		if live_keys.is_empty() {
+			return None
+		}
+		let k = *r.pick(&live_keys);
+		if choice < 62 && (append_only || rc_roots) {
+			if rc_roots && !append_only {
+				self.live[c as usize].get_mut(&k).unwrap().1 += 1;
+			}
+			return Some(TxOp::RefTree(k))
+		}
+		if append_only || self.locked.contains(&(c, k)) && r.chance(1, 2) {
+			return None
+		}
+		let e = self.live[c as usize].get_mut(&k).unwrap();
+		if e.1 > 1 {
+			e.1 -= 1;
+		} else {
+			self.live[c as usize].remove(&k);
+		}
+		Some(TxOp::DerefTree(k))
+	}
+
 	pub fn any_locked(&self) -> bool {
 		!self.locked.is_empty()
 	}
-	pub fn on_crash(&mut self) {}
-	pub fn gen_lock_op(&mut self, _r: &mut Rng, _cfg: &RunCfg) -> Option<Op> {
-		None
+
+	pub fn on_crash(&mut self) {
+		self.locked.clear();
+	}
+
+	pub fn on_restart(&mut self) {
+		self.locked.clear();
+	}
+
+	pub fn gen_lock_op(&mut self, r: &mut Rng, cfg: &RunCfg) -> Option<Op> {
+		if !self.locked.is_empty() && r.chance(1, 2) {
+			let i = r.below(self.locked.len() as u64) as usize;
+			let (c, k) = self.locked.remove(i);
+			return Some(Op::UnlockTree(c, k))
+		}
+		let tcols: Vec<u8> = (0..cfg.cols.len()).filter(|c| cfg.cols[*c].kind.is_tree()).map(|c| c as u8).collect();
+		if tcols.is_empty() {
+			return None
+		}
+		let c = *r.pick(&tcols);
+		let live: Vec<usize> = self.live[c as usize].keys().cloned().collect();
+		if live.is_empty() {
+			return None
+		}
+		let k = *r.pick(&live);
+		if self.locked.contains(&(c, k)) {
+			return None
+		}
+		self.locked.push((c, k));
+		Some(Op::LockTree(c, k))
+	}
+
+	pub fn live_keys(&self, c: u8) -> Vec<usize> {
+		self.live[c as usize].keys().cloned().collect()
 	}
 }
 
 pub fn gen_ioerr(
-	_r: &mut Rng,
-	_cfg: &RunCfg,
-	_pipe: &impl crate::gen::PipeLike,
-	_big_max: u32,
-	_ts: &mut TreeGen,
+	r: &mut Rng,
+	cfg: &RunCfg,
+	pipe: &impl crate::gen::PipeLike,
+	big_max: u32,
+	ts: &mut TreeGen,
 ) -> Option<Op> {
-	None
+	let (q, a, u, d) = pipe.tuple();
+	let inner = match r.below(20) {
+		0..=14 => Op::Step(crate::gen::pick_stage_for(r, q, a, u, d)),
+		15..=17 => Op::Restart,
+		_ => Op::Commit(crate::gen::gen_valid_tx(r, cfg, big_max, ts)),
+	};
+	// fault index: small values dominate (most steps issue few file operations), with a tail
+	let after = match r.below(10) {
+		0..=5 => r.below(8),
+		6..=8 => r.below(40),
+		_ => r.below(400),
+	} as u32;
+	let tryio = r.chance(1, 2);
+	let errno = *r.pick(&[libc::EIO, libc::ENOSPC, libc::EIO, libc::EMFILE]);
+	Some(Op::IoErr { inner: Box::new(inner), after, errno, tryio })
 }
 
-pub fn gen_logfuzz(_r: &mut Rng, _cfg: &RunCfg) -> Op {
-	Op::Drain
+pub fn gen_logfuzz(r: &mut Rng, _cfg: &RunCfg) -> Op {
+	if r.chance(1, 5) {
+		return Op::StashLogs
+	}
+	let n = r.range(1, 3);
+	let mut muts = Vec::new();
+	for _ in 0..n {
+		let file_sel = r.below(8) as u32;
+		// offsets are taken modulo the file length; bias toward the first few hundred bytes and
+		// toward the tail (where the most recent records are)
+		let at = match r.below(4) {
+			0 => r.below(64),
+			1 => r.below(2_000),
+			2 => u32::MAX as u64 - r.below(200),
+			_ => r.below(1 << 24),
+		} as u32;
+		let m = match r.below(20) {
+			0..=4 => LogMutation::Truncate { file_sel, at },
+			5..=9 => LogMutation::FlipBit { file_sel, at, bit: r.below(8) as u8 },
+			10 => LogMutation::FlipTwo { file_sel, at, bit: r.below(8) as u8, dist: r.below(1000) as u32, bit2: r.below(8) as u8 },
+			11..=12 => LogMutation::Burst { file_sel, at, xor: (r.next() as u32) | 1 },
+			13..=14 => LogMutation::AppendGarbage { file_sel, len: r.below(300) as u32, seed: r.next() },
+			15 => LogMutation::Delete { file_sel },
+			16 => LogMutation::Duplicate { file_sel },
+			17 => LogMutation::SwapNames { a: r.below(8) as u32, b: r.below(8) as u32 },
+			18 => if r.chance(1, 2) { LogMutation::ZeroLen { file_sel } } else { LogMutation::SubHeader { file_sel, len: r.range(1, 8) as u8 } },
+			_ => LogMutation::Stale { which: r.below(16) as u32 },
+		};
+		muts.push(m);
+	}
+	Op::LogFuzz { muts, adopt: r.chance(2, 3) }
 }
 
-pub fn gen_admin(_r: &mut Rng, _cfg: &RunCfg) -> Option<Op> {
-	None
+pub fn gen_admin(r: &mut Rng, cfg: &RunCfg) -> Option<Op> {
+	let kinds = ["hash", "hash-uniform", "hash-preimage", "hash-rc", "btree", "tree:000", "tree:100"];
+	let ncols = cfg.cols.len() as u8;
+	let a = match r.below(12) {
+		0..=1 => AdminOp::AddColumn(r.pick(&kinds).to_string()),
+		2 => AdminOp::DropLastColumn,
+		3..=4 => AdminOp::ResetColumn(r.below(ncols as u64 + 2) as u8, if r.chance(1, 2) { Some(r.pick(&kinds).to_string()) } else { None }),
+		5..=7 => AdminOp::ClearColumn(r.below(ncols as u64 + 2) as u8),
+		8..=10 => AdminOp::OpenMismatch { col: r.below(8) as u8, field: r.below(7) as u8 },
+		_ => AdminOp::OpenWrongCount(if r.chance(1, 2) { -1 } else { 1 }),
+	};
+	Some(Op::Admin(a, r.chance(1, 2)))
 }
 
-pub fn gen_reject(_r: &mut Rng, _cfg: &RunCfg, _big_max: u32, _ts: &mut TreeGen) -> Option<Op> {
-	None
+pub fn gen_reject(r: &mut Rng, cfg: &RunCfg, big_max: u32, ts: &mut TreeGen) -> Option<Op> {
+	// a valid transaction (not applied to the generator's tree tracking: it will be refused)
+	let mut scratch = TreeGen { live: ts.live.clone(), locked: ts.locked.clone() };
+	let mut tx = crate::gen::gen_valid_tx(r, cfg, big_max, &mut scratch);
+	if r.chance(1, 12) {
+		return Some(Op::BadCommit { tx, bg_err: true })
+	}
+	let n_bad = if r.chance(1, 4) { 2 } else { 1 };
+	let mut inserted = 0;
+	for _ in 0..n_bad * 4 {
+		if inserted >= n_bad {
+			break
+		}
+		let c = r.below(cfg.cols.len() as u64) as u8;
+		let cc = &cfg.cols[c as usize];
+		if cc.keys.is_empty() {
+			continue
+		}
+		let k = r.below(cc.keys.len() as u64) as usize;
+		let leaf = TreeSpec { data: ValSpec { len: r.range(0, 40) as u32, seed: r.next(), compressible: false }, children: Vec::new() };
+		let bad: Option<TxOp> = match cc.kind {
+			ColKind::Hash | ColKind::HashUniform | ColKind::HashPreimage | ColKind::Btree => match r.below(5) {
+				0..=1 => Some(TxOp::Ref(k)),
+				2 => Some(TxOp::InsertTree(k, leaf)),
+				3 => Some(TxOp::RefTree(k)),
+				_ => Some(TxOp::DerefTree(k)),
+			},
+			ColKind::HashRc | ColKind::BtreeRc => match r.below(3) {
+				0 => Some(TxOp::InsertTree(k, leaf)),
+				1 => Some(TxOp::RefTree(k)),
+				_ => Some(TxOp::DerefTree(k)),
+			},
+			ColKind::Tree { append_only, rc_roots, .. } => match r.below(6) {
+				0 => Some(TxOp::Set(k, ValSpec { len: 5, seed: r.next(), compressible: false })),
+				1 => Some(TxOp::Del(k)),
+				2 => Some(TxOp::Ref(k)),
+				3 => {
+					// dereference of a missing root / of an append-only tree
+					let live = ts.live_keys(c);
+					let missing: Vec<usize> = (0..cc.keys.len()).filter(|x| !live.contains(x)).collect();
+					if append_only && !live.is_empty() {
+						Some(TxOp::DerefTree(*r.pick(&live)))
+					} else if !missing.is_empty() {
+						Some(TxOp::DerefTree(*r.pick(&missing)))
+					} else {
+						None
+					}
+				},
+				4 =>
+					if !append_only && !rc_roots {
+						let live = ts.live_keys(c);
+						if live.is_empty() { None } else { Some(TxOp::RefTree(*r.pick(&live))) }
+					} else {
+						None
+					},
+				_ => {
+					// a node that cannot be represented: fan-out beyond 255
+					let live = ts.live_keys(c);
+					let free: Vec<usize> = (0..cc.keys.len()).filter(|x| !live.contains(x)).collect();
+					if free.is_empty() {
+						None
+					} else {
+						let n = *r.pick(&[256usize, 257, 300, 511, 512]);
+						let spec = TreeSpec {
+							data: ValSpec { len: 4, seed: r.next(), compressible: false },
+							children: (0..n).map(|_| ChildSpec::New(leaf.clone())).collect(),
+						};
+						Some(TxOp::InsertTree(*r.pick(&free), spec))
+					}
+				},
+			},
+		};
+		if let Some(b) = bad {
+			let pos = r.below(tx.len() as u64 + 1) as usize;
+			tx.insert(pos, (c, b));
+			inserted += 1;
+		}
+	}
+	if inserted == 0 {
+		return None
+	}
+	Some(Op::BadCommit { tx, bg_err: false })
 }
